@@ -147,6 +147,24 @@ def rand_scenario(rng, max_hosts=5, big=False, like=None):
     return sc
 
 
+def permute_names(sc):
+    """the same scenario with its OS / service / process lists (and every host's flag dictionaries) written in
+    reverse order: the same names, another column order"""
+    import copy
+    d = copy.deepcopy(sc.scenario_dict)
+    for key in (u.OS, u.SERVICES, u.PROCESSES):
+        d[key] = list(reversed(d[key]))
+    H = {}
+    for a, h in d[u.HOSTS].items():
+        H[a] = Host(address=a, os={k: h.os[k] for k in d[u.OS]}, services={k: h.services[k] for k in d[u.SERVICES]},
+                    processes={k: h.processes[k] for k in d[u.PROCESSES]}, firewall=copy.deepcopy(h.firewall),
+                    value=h.value, discovery_value=h.discovery_value)
+    d[u.HOSTS] = H
+    out = Scenario(d, name="rnd")
+    out._shape = getattr(sc, "_shape", "?")
+    return out
+
+
 def describe(sc):
     return dict(subnets=list(sc.subnets), topology=[list(map(int, r)) for r in sc.topology],
                 os=len(sc.os), services=len(sc.services), processes=len(sc.processes),
